@@ -7,6 +7,8 @@ import (
 	"hash/fnv"
 	"os"
 	"strconv"
+
+	dsq "github.com/ipfs/go-datastore/query"
 	"testing"
 
 	logging "github.com/ipfs/go-log/v2"
@@ -178,3 +180,5 @@ func readJSON(path string, v any) error {
 	}
 	return json.Unmarshal(b, v)
 }
+
+func dsqAll() dsq.Query { return dsq.Query{} }
